@@ -680,6 +680,11 @@ int sm3_xmss_signature_print(FILE *fp, int fmt, int ind, const char *label, cons
 	SM3_XMSS_SIGNATURE *sig = (SM3_XMSS_SIGNATURE *)in;
 	int i;
 
+	if (!in || inlen < 4 + 32 * 68) {
+		error_print();
+		return -1;
+	}
+
 	format_print(fp, fmt, ind, "%s\n", label);
 	ind += 4;
 
